@@ -103,7 +103,7 @@ def valgrind_lane():
 
 prop("C07",
      title="BER encoding and parsing are mutual inverses and encoding is canonical",
-     rule="random tag trees (4 classes x tags 0..30 x P/C, depth<=7, payload lengths biased to the 1/2/3/4-octet length boundaries, incl. 64K and 16M payloads) encoded by lber and compared byte-for-byte with the harness' minimal definite-length encoder, then parsed back with a random trailer; all integers in -70000..=70000, every +-2^k+-{0,1,2}, and random 64-bit values of every bit width compared with the reference shortest two's-complement content; reference encodings with random non-minimal length octets (long form where short would do, 1-4, 5-16 and 100-120 leading zero octets, i.e. up to X.690's 126 length octets) parsed by lber and compared with the reference decoder. distinct = distinct encoded byte strings / integer values",
+     rule="random tag trees (4 classes x tags 0..30 x P/C, depth<=7, payload lengths biased to the 1/2/3/4-octet length boundaries, incl. 64K and 16M payloads) encoded by lber and compared byte-for-byte with the harness' minimal definite-length encoder, then parsed back with a random trailer; all integers in -70000..=70000, every +-2^k+-{0,1,2}, and random 64-bit values of every bit width compared with the reference shortest two's-complement content; typed_trees lane: random trees built from lber's typed constructors (Sequence, Set, SetOf/SequenceOf, OctetString, Boolean, Null, Integer, Enumerated, ExplicitTag; any class, tag 0..30; members sometimes repeated verbatim) encoded and compared byte-for-byte with the reference encoding of the tree they denote, then parsed back; reference encodings with random non-minimal length octets (long form where short would do, 1-4, 5-16 and 100-120 leading zero octets, i.e. up to X.690's 126 length octets) parsed by lber and compared with the reference decoder. distinct = distinct encoded byte strings / integer values",
      design="3/C07", technique="differential monitor: lber vs independent BER reference over generated + exhaustive inputs; Miri lane",
      claim="held on every generated and enumerated input of this run; exhaustive over identifier octets, length-form boundaries and the integer band -70000..70000; no claim beyond the explored inputs",
      note="pure functions; trusted base is the harness BER model (two independent directions cross-check each other)")
@@ -126,7 +126,7 @@ prop("C09",
 
 prop("C15",
      title="SearchEntry::construct keeps every attribute value and classifies it correctly",
-     rule="random entries (0-8 distinct attributes, 0-6 values each, values valid UTF-8 (incl. empty, NUL, 4-byte) or invalid UTF-8 (overlong, surrogate, truncated, stray continuation, 5-byte) in any order), BER-encoded by the harness with random length forms, parsed by lber and passed to SearchEntry::construct; plus all 127 valid/invalid orderings of 0..6 values for one attribute. Oracle: DN equal, each attribute in exactly one map, text map iff all values valid UTF-8 with values in order, else binary map holds the same multiset. distinct = distinct encoded entries",
+     rule="random entries (0-8 distinct attributes, 0-6 values each, values valid UTF-8 (incl. empty, NUL, 4-byte) or invalid UTF-8 (overlong, surrogate, truncated, stray continuation, 5-byte) in any order), BER-encoded by the harness with random length forms, parsed by lber and passed to SearchEntry::construct; attribute descriptions carry real options (;binary, ;lang-en;BINARY, ;x-opt) since classification depends on the values only; plus all 127 valid/invalid orderings of 0..6 values for one attribute; through_connection lane: the same oracle on entries that travelled through search() on the in-memory transport, one in three with a 17-300 KB value. Oracle: DN equal, each attribute in exactly one map, text map iff all values valid UTF-8 with values in order, else binary map holds the same multiset. distinct = distinct encoded entries",
      claim="held on every generated entry; exhaustive over valid/invalid orderings of up to 6 values",
      design="3/C15", technique="pure-function monitor with a reference classifier over generated search entries",
      note="attribute names are distinct within an entry (as RFC 4511 requires of a server)")
@@ -151,7 +151,7 @@ prop("C03",
 
 prop("C02",
      title="Each request on the wire is exactly the RFC 4511 PDU the caller asked for",
-     rule="requests lane: per case one in-memory connection and 1-9 calls over all eleven operations (simple bind, SASL EXTERNAL, search with generated filter ASTs/attribute lists/every scope, deref, typesOnly and limit values, add, compare, delete, modify with every Mod variant, modifyDN with/without newSuperior, extended with/without value, abandon of arbitrary positive IDs, unbind) with arbitrary UTF-8 DNs, binary values, empty and 300-1000-element lists, values up to 100 KB and 0-5 request controls (known and random OIDs, criticality, value present/absent); the bytes the scripted server reads are decoded by the harness' strict RFC 4511 decoder (one definite-length LDAPMessage, shortest-form INTEGERs, BOOLEAN 00/FF, DEFAULT criticality not encoded, nothing trailing) and compared field by field with a request model built from the arguments (SET OF as multisets), the message ID with last_id() and the ID table. composed_requests lane (requests the library composes itself): every page request of a PagedResults search (alone / behind EntriesOnly, 1-12 entries in pages of 1-5) must be the caller's search again - same base, scope, deref/size/time/typesOnly options, filter, attributes and caller controls - plus exactly one paging control with the requested size and the cookie last returned; extended operations built from the typed structs (PasswordModify with all 8 present/absent field combinations, WhoAmI, StartTxn) and controls built from typed structs (ProxyAuth, ManageDsaIT +/- critical, PreRead/PostRead with 0-13 attributes, RelaxRules, TxnSpec) are sent through the real connection and compared with RFC-derived reference encodings. modifiers lane: random histories of with_controls / with_timeout / with_search_options followed by normal operations or locally failing ones (add/modify with an empty value set, invalid filter, paging-control clash) with scripted reply delays; every operation must show exactly its own modifiers, time out iff its own timeout is shorter than the reply delay, and locally failed operations must not reach the wire. distinct = distinct wire transcripts / distinct step sequences",
+     rule="requests lane: per case one in-memory connection and 1-9 calls over all eleven operations (simple bind, SASL EXTERNAL, search with generated filter ASTs/attribute lists/every scope, deref, typesOnly and limit values, add, compare, delete, modify with every Mod variant, modifyDN with/without newSuperior, extended with/without value, abandon of arbitrary positive IDs, unbind) with arbitrary UTF-8 DNs, binary values, empty and 300-1000-element lists, values up to 100 KB and 0-5 request controls (known and random OIDs, criticality, value present/absent); the bytes the scripted server reads are decoded by the harness' strict RFC 4511 decoder (one definite-length LDAPMessage, shortest-form INTEGERs, BOOLEAN 00/FF, DEFAULT criticality not encoded, nothing trailing) and compared field by field with a request model built from the arguments (SET OF as multisets), the message ID with last_id() and the ID table. composed_requests lane (requests the library composes itself): every page request of a PagedResults search (alone / behind EntriesOnly, 1-12 entries in pages of 1-5) must be the caller's search again - same base, scope, deref/size/time/typesOnly options, filter, attributes and caller controls - plus exactly one paging control with the requested size and the cookie last returned; extended operations built from the typed structs (PasswordModify with all 8 present/absent field combinations, WhoAmI, StartTxn) and controls built from typed structs (ProxyAuth, ManageDsaIT +/- critical, PreRead/PostRead with 0-13 attributes, RelaxRules, TxnSpec) are sent through the real connection and compared with RFC-derived reference encodings. cloned_handles lane: controls / a timeout / search options are set on a handle as separate statements, the handle is cloned, an operation runs on the clone (must carry none of them and must not inherit the timeout) and then one on the original (must carry exactly what was set). The composed lane also covers SyncRequest (mode x cookie absent/empty/present x reloadHint, +/- critical) and EndTxn. modifiers lane: random histories of with_controls / with_timeout / with_search_options followed by normal operations or locally failing ones (add/modify with an empty value set, invalid filter, paging-control clash) with scripted reply delays; every operation must show exactly its own modifiers, time out iff its own timeout is shorter than the reply delay, and locally failed operations must not reach the wire. distinct = distinct wire transcripts / distinct step sequences",
      claim="held on every generated call sequence of this run (per-operation counts in the evidence); all request types reached",
      design="3/C02", technique="wire-boundary monitor: independent strict RFC 4511 request decoder vs request model built from call arguments; modifier-history oracle on a paused clock",
      note=NETWORLD)
@@ -167,7 +167,7 @@ prop("C01",
 
 prop("C06",
      title="Message framing does not depend on how the byte stream is segmented",
-     rule="decoder lane (hook H4, the real decode function): for generated response messages (7-byte minimal IntermediateResponse up to 300 KB entries, minimal and random non-minimal length forms, with/without controls) every proper prefix (all of them up to 3000 bytes; header region, stride and tail beyond) must return 'need more' and leave the buffer byte-identical, and message+trailer must return exactly the message and leave exactly the trailer. connection lanes: a streaming search's item sequence (1-30 messages incl. messages larger than Framed's 8 KiB buffer) is delivered over the in-memory transport under partitions: single read, byte-by-byte, random cuts, fixed chunk sizes around 8192, every single split point (exhaustive, sequences <=700 bytes) and every pair of split points (exhaustive, <=64 bytes); after each chunk a quiescence barrier (paused clock) compares the number of items the client holds with the number of messages completely written: more = surfaced before its last byte, fewer = complete message withheld; the final item sequence and result must be identical under every partition; the sequences also contain messages addressed to nobody (ID 0 notices, unknown IDs) which must be skipped without disturbing the framing of what follows. a third of the partition cases run on a busy connection: a second handle keeps issuing operations whose replies are interleaved between the stream's messages, so that the driver's other ready events race the incoming frames. bursts lane: one search answered with 1100-6100 small messages written at once, in 701/8192/65536-byte pieces and at random cuts; the client must receive all of them however fast they arrive. distinct = distinct message sequences; evidence counts prefixes, partitions and barriers checked",
+     rule="decoder lane (hook H4, the real decode function): for generated response messages (7-byte minimal IntermediateResponse up to 300 KB entries, minimal and random non-minimal length forms, with/without controls) every proper prefix (all of them up to 3000 bytes; header region, stride and tail beyond) must return 'need more' and leave the buffer byte-identical, and message+trailer must return exactly the message and leave exactly the trailer. connection lanes: a streaming search's item sequence (1-30 messages incl. messages larger than Framed's 8 KiB buffer) is delivered over the in-memory transport under partitions: single read, byte-by-byte, random cuts, fixed chunk sizes around 8192, every single split point (exhaustive, sequences <=700 bytes) and every pair of split points (exhaustive, <=64 bytes); after each chunk a quiescence barrier (paused clock) compares the number of items the client holds with the number of messages completely written: more = surfaced before its last byte, fewer = complete message withheld; the final item sequence and result must be identical under every partition; the sequences also contain messages addressed to nobody (ID 0 notices, unknown IDs) which must be skipped without disturbing the framing of what follows. a third of the partition cases run on a busy connection: a second handle keeps issuing operations whose replies are interleaved between the stream's messages, so that the driver's other ready events race the incoming frames. bursts lane (also: the same burst followed at once by the end of the connection with a reader that starts only afterwards; one message of 1-4 MiB cut near its header): one search answered with 1100-6100 small messages written at once, in 701/8192/65536-byte pieces and at random cuts; the client must receive all of them however fast they arrive. distinct = distinct message sequences; evidence counts prefixes, partitions and barriers checked",
      claim="held on every generated message, prefix and partition of this run; exhaustive over single (and, for short sequences, double) split points of the generated sequences",
      design="3/C06", technique="prefix/partition enumeration against the real decoder (H4) and the real connection, with quiescence-barrier observation of delivered-item counts",
      note=NETWORLD)
@@ -175,7 +175,7 @@ prop("C06",
 
 prop("C10",
      title="Search streams deliver the server's items in order and obey the state machine",
-     rule="streams lane: a reference model of the documented SearchStream state machine (Active -> Done -> Closed, Error after a failure; next() outside Active = Ok(None); finish() = server result iff read to the end, else rc 88; second finish rc 80) is executed in lock step with the real stream for a random client call sequence over next/finish/state (calls after the end, early finish at every position, repeated finish, random mixes), on direct streams, EntriesOnly, a user-defined pass-through adapter and chains of 1-3 of them; server item sequences of 0-30 entries/references/intermediates with per-item controls, result codes 0..123, optional connection loss after k items; every return value and every state() must equal the model's. one stream in eight has an outermost user-defined adapter that fails on its own account after k calls (the stream must enter the Error state all the same). sync_streams lane: the same model against the synchronous EntryStream over a Unix socket pair (direct / behind EntriesOnly, read to the end or stopped early): items in order and result() = what finish() returns, incl. the referral URIs EntriesOnly collected. search_collect lane: search() must return exactly the entries in order with referral URIs appended to refs in arrival order and intermediates dropped. distinct = distinct (stream kind, item count, fault point, call script)",
+     rule="streams lane: a reference model of the documented SearchStream state machine (Active -> Done -> Closed, Error after a failure; next() outside Active = Ok(None); finish() = server result iff read to the end, else rc 88; second finish rc 80) is executed in lock step with the real stream for a random client call sequence over next/finish/state (calls after the end, early finish at every position, repeated finish, random mixes), on direct streams, EntriesOnly, a user-defined pass-through adapter and chains of 1-3 of them; server item sequences of 0-30 entries/references/intermediates with per-item controls, result codes 0..123, optional connection loss after k items; every return value and every state() must equal the model's. one stream in eight has an outermost user-defined adapter that fails on its own account after k calls (the stream must enter the Error state all the same). paged_early_finish lane: a PagedResults search (alone / behind EntriesOnly) stopped after j items on the first or a later page: finish() must report rc 88 (never an earlier page's result), state Closed, second finish rc 80. sync_streams lane: the same model against the synchronous EntryStream over a Unix socket pair (direct / behind EntriesOnly, read to the end or stopped early, server keeping the connection open or closing it right after the final result, reader keeping up or lagging): items in order and result() = what finish() returns, incl. the referral URIs EntriesOnly collected. search_collect lane: search() must return exactly the entries in order with referral URIs appended to refs in arrival order and intermediates dropped. distinct = distinct (stream kind, item count, fault point, call script)",
      claim="held on every generated stream history of this run (counts per stream kind, early finishes and connection losses in the evidence)",
      design="3/C10", technique="lock-step executable model of the stream state machine against the real SearchStream over scripted item sequences",
      note=NETWORLD)
@@ -183,7 +183,7 @@ prop("C10",
 
 prop("C13",
      title="Completed operations leave nothing behind",
-     rule="random histories of 3-20 steps (long_histories: 600 steps) on one connection over 22 step kinds: single op, single op with unsolicited/unknown-ID responses, search() read to the end, direct stream read to the end, direct stream finished early at every position (rest of the items never sent or sent late), PagedResults search alone and behind EntriesOnly over 0-25 entries and page sizes 1-8, PagedResults finished early on a later page, single-op timeout (reply never / late), stream timeout with the server silent afterwards or answering late, search() call timing out, zero-timeout abandon of an in-flight op, single op / stream start / search() call timing out while the driver is stuck writing the request (transport back-pressure released 300 ms later), abandon of a finished op, of a timed-out op, of an in-flight single op and of an in-flight stream (direct, behind EntriesOnly, or a collecting search() call; from a cloned handle). After every step the harness waits 1.5 virtual seconds (late replies arrive, paused-clock quiescence) and reads the ID table (hook H2) and the driver's routing-map sizes (hook H3): any newly reserved ID or routing entry is attributed to the step that left it. Abandon oracle: the server saw an AbandonRequest naming the given ID, the waiting caller returned an error, the ID is released. distinct = distinct step sequences; evidence counts quiescent points checked and steps per kind",
+     rule="random histories of 3-20 steps (long_histories: 600 steps) on one connection over 23 step kinds: single op, single op with unsolicited/unknown-ID responses, single op answered with an IntermediateResponse before the final response, search() read to the end, direct stream read to the end, direct stream finished early at every position (rest of the items never sent or sent late), PagedResults search alone and behind EntriesOnly over 0-25 entries and page sizes 1-8, PagedResults finished early on a later page, single-op timeout (reply never / late), stream timeout with the server silent afterwards or answering late, search() call timing out, zero-timeout abandon of an in-flight op, single op / stream start / search() call timing out while the driver is stuck writing the request (transport back-pressure released 300 ms later), abandon of a finished op, of a timed-out op, of an in-flight single op and of an in-flight stream (direct, behind EntriesOnly, or a collecting search() call; from a cloned handle). After every step the harness waits 1.5 virtual seconds (late replies arrive, paused-clock quiescence) and reads the ID table (hook H2) and the driver's routing-map sizes (hook H3): any newly reserved ID or routing entry is attributed to the step that left it. Abandon oracle: the server saw an AbandonRequest naming the given ID, the waiting caller returned an error, the ID is released. tls_connections lane: on real loopback TLS connections (ldap + StartTLS, whose setup runs one operation through the driver's single-operation mode, and ldaps) no ID is reserved right after establishment nor after two completed binds. distinct = distinct step sequences; evidence counts quiescent points checked and steps per kind",
      claim="held at every quiescent point of every generated history of this run (zero reserved IDs and zero routing entries, i.e. no growth over 600-step histories)",
      design="3/C13", technique="invariant hook at quiescent points (ID table + routing-map gauges) over scripted histories on a paused clock, plus wire-log check of AbandonRequest",
      note=NETWORLD + "; streams dropped without finish() are excluded (the property speaks of finished streams)")
@@ -191,7 +191,7 @@ prop("C13",
 
 prop("C16",
      title="The PagedResults adapter returns the whole result set exactly once",
-     rule="scripted paging server holding a result set of 0-200 tokened entries (plus occasional references/intermediates) split into pages by the server: full pages, short and empty pages with live cookies, empty first page, single page, up to 140 pages; cookies of 1-300 random bytes incl. bytes that look like BER and all-zero cookies, and (1 in 6) the same opaque cookie handed back with every page but the last; requested page sizes 1..2^31-1; adapter alone, behind EntriesOnly and in front of it; 0-5 accompanying request controls and non-default search options; with/without per-item timeout; caller-supplied paging control in the control list (must fail at start, nothing on the wire); in 1/8 of the cases the connection is lost at a page boundary or inside a page (the caller must see an error, shared with C04). Client oracle: entries returned == the result set, each once, in order; final result is the last page's with the paging control stripped and other response controls kept. Server oracle: request 1 carries exactly one paging control with the requested size and an empty cookie; request k+1 equals request k in base/scope/filter/attributes/options/other controls and carries the cookie returned by response k (decoded with the harness' codec); exactly one request per page, none after the first empty cookie. distinct = distinct page layouts x adapter chain",
+     rule="scripted paging server holding a result set of 0-200 tokened entries (plus occasional references/intermediates) split into pages by the server: full pages, short and empty pages with live cookies, empty first page, single page, up to 140 pages; cookies of 1-300 random bytes incl. bytes that look like BER and all-zero cookies, and (1 in 6) the same opaque cookie handed back with every page but the last; result codes 3/4/10/11/53 on the last (1 in 5) or an intermediate (1 in 12) page - the cookie alone decides whether there is another page; requested page sizes 1..2^31-1; adapter alone, behind EntriesOnly and in front of it; 0-5 accompanying request controls and non-default search options; with/without per-item timeout; caller-supplied paging control in the control list (must fail at start, nothing on the wire); in 1/8 of the cases the connection is lost at a page boundary or inside a page (the caller must see an error, shared with C04). After a connection loss at a page boundary finish() must report rc 88, not the earlier page's result. Client oracle: entries returned == the result set, each once, in order; final result is the last page's with the paging control stripped and other response controls kept. Server oracle: request 1 carries exactly one paging control with the requested size and an empty cookie; request k+1 equals request k in base/scope/filter/attributes/options/other controls and carries the cookie returned by response k (decoded with the harness' codec); exactly one request per page, none after the first empty cookie. distinct = distinct page layouts x adapter chain",
      claim="held on every generated paging conversation of this run (pages served and entries transferred are in the evidence)",
      design="3/C16", technique="scripted paging server with wire-log oracle on the request sequence and client-boundary oracle on the returned entries",
      note=NETWORLD)
@@ -199,7 +199,7 @@ prop("C16",
 
 prop("C12",
      title="Timeouts fire on time, keep the connection usable and orphan the late reply",
-     rule="paused virtual clock, so every time is exact to tokio's 1 ms timer granularity. Per case 1-4 cloned handles each run 1-6 operations concurrently: single operations and direct streaming searches, with no timeout, a timeout in {0,1,10,50,100,1000,60000,3600000} ms, or (1 in 12) an effectively infinite one (Duration::MAX, u64::MAX s, i64::MAX s) which must behave like no timeout; the scripted server answers after delays chosen around the deadline (T/2, T-1, T, T+1, 2T+5, fixed values, never), for searches with one such gap before every item and before Done. Every client event (response, item, end, timeout, finish) is recorded with its virtual time and compared with the expected timeline: response iff it arrives strictly before the deadline, at its arrival time; otherwise Timeout exactly at the deadline; for searches the deadline restarts at each received item (all gaps < T => everything delivered however long the total); arrival exactly at the deadline is a tie and not judged. Afterwards (3 virtual hours later, every late reply has arrived): no returned value carries another operation's token, no ID is reserved (H2), the driver holds no routing entries (H3), the driver is still running, and after positioning the ID counter at 0 the next operation gets ID 1 and succeeds. non-trivial = cases in which at least one operation is expected to time out; distinct = distinct programs",
+     rule="paused virtual clock, so every time is exact to tokio's 1 ms timer granularity. Per case 1-4 cloned handles each run 1-6 operations concurrently: single operations and direct streaming searches, with no timeout, a timeout in {0,1,10,50,100,1000,60000,3600000} ms, or (1 in 12) an effectively infinite one (Duration::MAX, u64::MAX s, i64::MAX s) which must behave like no timeout; the scripted server answers after delays chosen around the deadline (T/2, T-1, T, T+1, 2T+5, fixed values, never), for searches with one such gap before every item and before Done. Every client event (response, item, end, timeout, finish) is recorded with its virtual time and compared with the expected timeline: response iff it arrives strictly before the deadline, at its arrival time; otherwise Timeout exactly at the deadline; for searches the deadline restarts at each received item (all gaps < T => everything delivered however long the total); arrival exactly at the deadline is a tie and not judged. A quarter of the searches run through the PagedResults adapter (page size 1-3; the page's result arrives half-way through the gap before the next item, so the wait for it and the wait for the next page's first item are two waits). stalled_driver lane: while the driver is stuck writing another handle's 2-100 KB request (transport back-pressure), a timed single operation, stream start or search() call must fail with Timeout exactly at its deadline and be cleaned up once the peer reads again. Afterwards (3 virtual hours later, every late reply has arrived): no returned value carries another operation's token, no ID is reserved (H2), the driver holds no routing entries (H3), the driver is still running, and after positioning the ID counter at 0 the next operation gets ID 1 and succeeds. non-trivial = cases in which at least one operation is expected to time out; distinct = distinct programs",
      claim="held on every generated timing program of this run; counts of operations expected to time out, ties not judged and ID-reuse checks are in the evidence",
      design="3/C12", technique="virtual-time trace checker: client events timestamped on a paused clock compared with the timeline computed from the scripted reply delays; H2/H3 invariant at the final quiescent point",
      note=NETWORLD + "; 'on time' is a statement about virtual time")
@@ -207,7 +207,7 @@ prop("C12",
 
 prop("C05",
      title="In-flight operations never share a message ID; IDs stay within 1..2^31-1",
-     rule="wrap lane: for every subset of {1,2,3,4,MAX-3,MAX-2,MAX-1,MAX} (256 patterns) real pending operations are parked on exactly those IDs (single operations the server never answers, streaming searches that have already received 0-2 entries and are kept open, streams read to Done but not yet finished, or streams whose per-item timeout has fired but which are not yet finished; or PagedResults searches whose first page ended under the slot's ID and whose second page runs under an ID from a distant pen; finishing the ended streams later, after their old ID has been re-allocated to a new operation, must not release the new owner's ID (a paged stream releases its current page's ID only); the counter is positioned with hook H2 before each), then the counter is positioned at MAX-k for every k in 0..=8 and 2k+8 operations are issued, some answered, some left pending; some operations time out at once and are followed, in the same poll, by a new operation for which the timed-out ID is the next candidate. Judged: every request's wire ID lies in 1..=2^31-1 and differs from the ID of every operation still outstanding; operations near the wrap point complete; and, as a probe at the end of every case, for each outstanding operation the counter is positioned just below its ID and one more operation is issued, which must not receive that ID (the allocator steps over IDs in use). The reference allocator (last+1, wrap MAX->1, skip in-use) and the library's ID table (H2) are compared in lock step as well but only counted: another allocation order or bookkeeping does not break the property. threads lane: 4-48 tasks on cloned handles on a multi-thread tokio runtime with 2-8 real worker threads issue server-answered and locally completing operations; the server holds replies until many requests are outstanding and releases them in one burst in random order so that all waiting tasks allocate at the same moment; it checks every arriving ID against the set of requests it has not yet answered (a third of the cases start just below the wrap point). Miri lane (thorough): the threads lane at tiny size under Miri's data-race detector and preemptive scheduler. non-trivial = cases whose allocations crossed the wrap point / all threaded cases",
+     rule="wrap lane: for every subset of {1,2,3,4,MAX-3,MAX-2,MAX-1,MAX} (256 patterns) real pending operations are parked on exactly those IDs (single operations the server never answers, streaming searches that have already received 0-2 entries and are kept open, streams read to Done but not yet finished, or streams whose per-item timeout has fired but which are not yet finished; or PagedResults searches whose first page ended under the slot's ID and whose second page runs under an ID from a distant pen; finishing the ended streams later, after their old ID has been re-allocated to a new operation, must not release the new owner's ID (a paged stream releases its current page's ID only); the counter is positioned with hook H2 before each), then the counter is positioned at MAX-k for every k in 0..=8 and 2k+8 operations are issued, some answered, some left pending; parked operations also include streams abandoned through another handle whose reader comes back at the very end; before the probes a handle whose last operation completed long ago issues an Abandon with a zero timeout while that old ID belongs to a new pending operation; some operations time out at once and are followed, in the same poll, by a new operation for which the timed-out ID is the next candidate. Judged: every request's wire ID lies in 1..=2^31-1 and differs from the ID of every operation still outstanding; operations near the wrap point complete; and, as a probe at the end of every case, for each outstanding operation the counter is positioned just below its ID and one more operation is issued, which must not receive that ID (the allocator steps over IDs in use). The reference allocator (last+1, wrap MAX->1, skip in-use) and the library's ID table (H2) are compared in lock step as well but only counted: another allocation order or bookkeeping does not break the property. threads lane: 4-48 tasks on cloned handles on a multi-thread tokio runtime with 2-8 real worker threads issue server-answered and locally completing operations; the server holds replies until many requests are outstanding and releases them in one burst in random order so that all waiting tasks allocate at the same moment; it checks every arriving ID against the set of requests it has not yet answered (a third of the cases start just below the wrap point). Miri lane (thorough): the threads lane at tiny size under Miri's data-race detector and preemptive scheduler. non-trivial = cases whose allocations crossed the wrap point / all threaded cases",
      claim="held on every enumerated wrap pattern and every threaded run of this execution; exhaustive over the 256 x 9 parked-pattern/position grid; concurrency evidence lists requests checked and the peak number of simultaneously outstanding operations observed",
      design="3/C05", technique="lock-step executable allocator model over the wire log + H2 table; interval-overlap check at the server under real multi-threading; Miri race detector",
      note=NETWORLD + "; the threads lane uses real time and real OS threads (no paused clock)")
@@ -216,7 +216,7 @@ EXTRA_LANES["C05"] = [miri_lane()]
 
 prop("C11",
      title="Hostile or corrupt server bytes cannot crash or wedge the connection",
-     rule="inputs: random bytes; random bodies behind a plausible SEQUENCE header; structural single and double mutations of valid response messages of every type (element deleted/duplicated/appended, class or tag changed, constructed<->primitive swapped, emptied, primitive content replaced incl. widened/negative integers and non-UTF-8, children reversed); byte-level mutations (every length field +-1/+-big/other form, truncation, bit flips, byte replace/insert/delete); hand-picked classics (30 00, inner length exceeding outer, missing ID, empty BOOLEAN, unknown op for a search ID, malformed SearchResultDone); nesting up to depth 60. decoder and driver lanes run as child-process shards so that a process abort (allocation failure, abort-on-double-panic, stack overflow) becomes a verdict ('process-killed-by-signal') instead of taking the checker down. decoder lane (H4, real decode function, catch_unwind per input): a panic is a violation; 'need more' while the buffer already holds the outer TLV's announced length is a wedge. driver lane: a bind pending on ID 1 and a search (0-2 entries already delivered) on ID 2, then the hostile frame addressed to one of them, optionally followed by valid responses, then EOF: drive() must return without panicking, both callers must resolve under the virtual-time watchdog, a complete non-envelope frame must already have ended the connection at the next quiescence barrier (before any further byte or EOF arrives), and a frame that is not an envelope (outer not a universal SEQUENCE, <2 elements, first element not an INTEGER in 0..2^31-1) must end the connection with an error both callers observe. stack lane: child processes decode and drive nested TLVs (three shapes) of depth 10..250000 (up to ~1 MB) on 2 MiB thread stacks; death by signal is a violation, inability to spawn is inconclusive. distinct = distinct input byte strings",
+     rule="inputs: random bytes; random bodies behind a plausible SEQUENCE header; structural single and double mutations of valid response messages of every type (element deleted/duplicated/appended, class or tag changed, constructed<->primitive swapped, emptied, primitive content replaced incl. widened/negative integers and non-UTF-8, children reversed); byte-level mutations (every length field +-1/+-big/other form, truncation, bit flips, byte replace/insert/delete); hand-picked classics (30 00, inner length exceeding outer, missing ID, empty BOOLEAN, unknown op for a search ID, malformed SearchResultDone); nesting up to depth 60. decoder and driver lanes run as child-process shards so that a process abort (allocation failure, abort-on-double-panic, stack overflow) becomes a verdict ('process-killed-by-signal') instead of taking the checker down. decoder lane (H4, real decode function, catch_unwind per input): a panic is a violation; 'need more' while the buffer already holds the outer TLV's announced length is a wedge. driver lane: a bind pending on ID 1 and a search (0-2 entries already delivered) on ID 2, then the hostile frame addressed to one of them, optionally followed by valid responses, then EOF: drive() must return without panicking, both callers must resolve under the virtual-time watchdog, a frame in which an inner element runs past the end of its container counts as not-an-envelope and may never be delivered; a complete well-formed envelope addressed to the pending bind or search must be delivered to it or end the connection by the next quiescence barrier (never silently swallowed); a complete non-envelope frame must already have ended the connection at the next quiescence barrier (before any further byte or EOF arrives), and a frame that is not an envelope (outer not a universal SEQUENCE, <2 elements, first element not an INTEGER in 0..2^31-1) must end the connection with an error both callers observe. stack lane: child processes decode and drive nested TLVs (three shapes) of depth 10..250000 (up to ~1 MB) on 2 MiB thread stacks; death by signal is a violation, inability to spawn is inconclusive. distinct = distinct input byte strings",
      claim="held on every hostile input of this run (no decoder or driver panic, no wedge, no hang, no stack overflow up to the probed depth); caller-side panics on malformed single-operation results are counted here and judged by C04's malformed_results lane",
      design="3/C11", technique="mutation-based hostile-input monitor on the real decoder (catch_unwind) and the real driver (virtual-time watchdog), plus a subprocess stack probe",
      note=NETWORLD + "; 'complete frame' is judged by the harness' own BER header parser; first bytes with tag number 31 are not judged for wedging")
@@ -224,7 +224,7 @@ prop("C11",
 
 prop("C04", level="fault_enumeration",
      title="Every operation terminates; losing the connection fails all pending work",
-     rule="cuts lane (fault enumeration): a scenario = 0-4 pending single operations + 0-3 pending streaming searches (0-4 items each, read eagerly) + a seeded interleaving of their responses (some operations left unanswered) + a fault kind in {server EOF, read error, complete undecodable frame, client unbind with the server closing on UnbindRequest} + barrier/no-barrier; the response stream is B bytes long and the scenario is run once for EVERY cut position p in 0..=B (undecodable frames only at message boundaries): the server delivers the first p bytes, passes a quiescence barrier, then injects the fault. Expected outcome per call is computed from the byte offsets: response complete before the cut (and barrier) => must be Ok with exactly its token; not complete => must be Err; complete without barrier => either, never wrong or partial data; stream items complete before the cut are returned in order, then Err (Ok(None) only if Done preceded the cut). Then: a later operation must fail with zero virtual time elapsed and zero bytes reaching the server, drive() must return under the virtual-time watchdog, unbind must return Ok and shut the transport, and the transport must be shut or dropped after every fault. write_errors lane: 0-2 single operations and 0-2 streams pending, then a write error at every byte position of the next request. handle_drops lane: clones and streams holding handles dropped one by one: transport open while any is alive, closed with drive() returning Ok after the last. real_transports lane: the same loss/unbind scenarios over real loopback TCP and Unix socket pairs (ConnType::Tcp / ConnType::Unix arms, which the in-memory transport bypasses): peer must observe EOF after unbind even while handles are kept, pending operations fail after the peer closes (wall-clock expiry = retried, then inconclusive). The real_transports lane also runs StartTLS establishment (no connection timeout configured) against a server that closes before or after the request, answers an unknown ID or sends an unsolicited notice and then closes or refuses, or sends half a response: the establishing call must return an error (pending after 8 s => retried alone with 40 s => hang). malformed_results lane: the hostile frames of C11 (random bytes, structural and byte-level mutations of valid responses) arrive while a bind and a search are pending; every operation future must complete with a value or an error: a panic in the caller's task or a caller left pending is a violation. late_readers lane: search() (which collects a whole result) must fail when the connection is lost before the SearchResultDone and return everything when the Done made it; a streaming reader (direct / behind EntriesOnly) that starts reading only after the connection has gone must still get every delivered item, then the end or an error. unbind_under_backpressure lane: the peer stops reading, the driver is stuck writing a 1-200 KB request, unbind() is called with a timeout (0-200 ms) that expires first; once the peer reads again the UnbindRequest must go out, the transport be shut, pending work fail and drive() return. paged_connection_loss lane: a PagedResults search loses the connection inside a page and exactly at a page boundary (after the page's SearchResultDone, before/while the follow-up request): the caller must get an error, never a clean end of results. distinct = distinct scenarios; evidence counts runs (= scenarios x cut points)",
+     rule="cuts lane (fault enumeration): a scenario = 0-4 pending single operations + 0-3 pending streaming searches (0-4 items each, read eagerly) + a seeded interleaving of their responses (some operations left unanswered) + a fault kind in {server EOF, read error, complete undecodable frame, client unbind with the server closing on UnbindRequest} + barrier/no-barrier; the response stream is B bytes long and the scenario is run once for EVERY cut position p in 0..=B (undecodable frames only at message boundaries): the server delivers the first p bytes, passes a quiescence barrier, then injects the fault. Expected outcome per call is computed from the byte offsets: response complete before the cut (and barrier) => must be Ok with exactly its token; not complete => must be Err; complete without barrier => either, never wrong or partial data; stream items complete before the cut are returned in order, then Err (Ok(None) only if Done preceded the cut). Then: a later operation must fail with zero virtual time elapsed and zero bytes reaching the server, drive() must return under the virtual-time watchdog, unbind must return Ok and shut the transport, and the transport must be shut or dropped after every fault. write_errors lane: 0-2 single operations and 0-2 streams pending, then a write error at every byte position of the next request. handle_drops lane: clones and streams holding handles dropped one by one: transport open while any is alive, closed with drive() returning Ok after the last. real_transports lane: the same loss/unbind scenarios over real loopback TCP and Unix socket pairs (ConnType::Tcp / ConnType::Unix arms, which the in-memory transport bypasses): peer must observe EOF after unbind even while handles are kept, pending operations fail after the peer closes (wall-clock expiry = retried, then inconclusive). The real_transports lane also runs StartTLS establishment (no connection timeout configured) against a server that closes before or after the request, answers an unknown ID or sends an unsolicited notice and then closes or refuses, or sends half a response: the establishing call must return an error (pending after 8 s => retried alone with 40 s => hang). malformed_results lane: the hostile frames of C11 (random bytes, structural and byte-level mutations of valid responses) arrive while a bind and a search are pending; every operation future must complete with a value or an error: a panic in the caller's task or a caller left pending is a violation. In the cuts lane a response that had arrived completely before the fault must be returned whether or not a quiescence barrier separated it from the fault (bytes that precede the fault on the transport are read before it); for the client-unbind fault without barrier the unbind request is queued in the same instant the response bytes become readable, so that the driver finds both ready. malformed_results also requires that a complete frame which is not an LDAPMessage has failed the pending operations at the next quiescence barrier, not only when more input or the end of the connection arrives. late_readers lane: finish() called without reading on a stream whose connection is gone must return rc 88 without panicking; search() (which collects a whole result) must fail when the connection is lost before the SearchResultDone and return everything when the Done made it; a streaming reader (direct / behind EntriesOnly) that starts reading only after the connection has gone must still get every delivered item, then the end or an error. unbind_under_backpressure lane: the peer stops reading, the driver is stuck writing a 1-200 KB request, unbind() is called with a timeout (0-200 ms) that expires first; once the peer reads again the UnbindRequest must go out, the transport be shut, pending work fail and drive() return. paged_connection_loss lane: a PagedResults search loses the connection inside a page and exactly at a page boundary (after the page's SearchResultDone, before/while the follow-up request): the caller must get an error, never a clean end of results. distinct = distinct scenarios; evidence counts runs (= scenarios x cut points)",
      claim="exhaustive over cut positions for each generated scenario, and over the byte positions of the failing request; held on every run",
      design="3/C04", technique="fault enumeration over response-stream cut points on the in-memory transport with a virtual-time hang watchdog; expected outcomes computed from wire offsets",
      note=NETWORLD + "; a hang is a client future still pending when the paused-clock runtime is idle (24 virtual hours watchdog), not a wall-clock deadline")
@@ -232,7 +232,7 @@ prop("C04", level="fault_enumeration",
 
 prop("C19",
      title="Control and extended-operation values round-trip through their codecs",
-     rule="requests lane: for generated field values of each of the 14 request structs (PagedResults sizes over the integer length boundaries and cookies empty/zero/BER-looking/300 bytes; SyncRequest both modes x cookie absent/empty/present x reload hint; Pre/PostRead attribute lists; Assertion and MatchedValues over generated filter ASTs rendered with random escaping; ProxyAuth, TxnSpec identifiers over arbitrary Unicode; ManageDsaIT, RelaxRules with/without .critical(); WhoAmI, PasswordModify all 8 present/absent combinations, StartTxn, EndTxn commit/abort) the emitted OID and criticality are compared with the RFC's and the value is decoded with the harness' BER codec and compared with the RFC's structure holding exactly the fields (shortest-form integers, minimal lengths, DEFAULTs not encoded). responses lane: reference-encoded values (minimal or random non-minimal length octets, BOOLEAN TRUE as FF or other non-zero) for PagedResults, SyncState (4 states, cookie optional), SyncDone, SyncInfo (all four choices with every combination of optional cookie / default and non-default flag / UUID set), Pre/PostRead responses over generated entries, WhoAmI, PasswordModify and StartTxn responses are parsed by the library and compared field by field. envelope lane (hook H4): response control lists with criticality absent/FALSE/TRUE and value absent/empty/large decoded by the real decoder must come back unchanged (absent criticality = false, absent value = None). attached_controls lane: entries, references, intermediate responses and the final result of a search each carry 1-4 response controls; each must reach the caller with the message it was attached to (real connection, random length forms). EndTxnResp is not in the property's list and is not checked. distinct = distinct generated values",
+     rule="requests lane: for generated field values of each of the 14 request structs (PagedResults sizes over the integer length boundaries and cookies empty/zero/BER-looking/300 bytes; SyncRequest both modes x cookie absent/empty/present x reload hint; Pre/PostRead attribute lists; Assertion and MatchedValues over generated filter ASTs rendered with random escaping; ProxyAuth, TxnSpec identifiers over arbitrary Unicode; ManageDsaIT, RelaxRules with/without .critical(); WhoAmI, PasswordModify all 8 present/absent combinations, StartTxn, EndTxn commit/abort) the emitted OID and criticality are compared with the RFC's and the value is decoded with the harness' BER codec and compared with the RFC's structure holding exactly the fields (shortest-form integers, minimal lengths, DEFAULTs not encoded). responses lane: reference-encoded values (minimal or random non-minimal length octets, BOOLEAN TRUE as FF or other non-zero) for PagedResults, SyncState (4 states, cookie optional), SyncDone, SyncInfo (all four choices with every combination of optional cookie / default and non-default flag / UUID set), Pre/PostRead responses over generated entries, WhoAmI, PasswordModify and StartTxn responses are parsed by the library and compared field by field. envelope lane (hook H4): response control lists with criticality absent/FALSE/TRUE and value absent/empty/large decoded by the real decoder must come back unchanged (absent criticality = false, absent value = None). attached_controls lane: typed request controls (critical or not, with or without a value) as the server's strict decoder reads them off the wire; entries, references, intermediate responses and the final result of a search each carry 1-4 response controls; each must reach the caller with the message it was attached to (real connection, random length forms). EndTxnResp is not in the property's list and is not checked. distinct = distinct generated values",
      claim="held on every generated value of this run; per-struct counts are in the evidence",
      design="3/C19", technique="differential monitor: library codecs vs RFC-derived reference encoders/decoders built on the harness BER model",
      note="pure functions plus hook H4 for the envelope lane; PasswordModify with no fields may omit the request value or send an empty SEQUENCE (both accepted)")
@@ -240,7 +240,7 @@ prop("C19",
 
 prop("C18", timeout_quick=1500,
      title="Connection setup honours the URL and fails cleanly on bad input",
-     rule="real loopback sockets: TCP listeners on 127.0.0.1/[::1] ports 389 and 636 (the sandbox runs as root), ephemeral ports, a listener that reads and never answers, a port with no listener, and Unix socket listeners at generated paths (plain; with space, '%', non-ASCII and ':' needing percent-encoding). An enumerated table of (URL, StartTLS, timeout, pre-opened TCP/Unix/Invalid stream) cases with the expected outcome derived from the property: explicit host/port (incl. explicit ports equal to the other scheme's default: ldaps://h:389, ldap://h:636), default ports 389/636, missing or empty host = localhost (ldap:///, ldap://, ldap:), IPv6 literal, ldapi percent-decoding, empty and port-bearing ldapi paths, unknown schemes, unparsable URLs, refused port, pre-opened stream used iff its type matches the scheme (and then no new connection is made; an Invalid or TCP-typed stream with an ldapi URL naming a LIVE socket must fail, not fall back to connecting by path), connection timeout bounding StartTLS / TLS handshake against a silent server, effectively infinite connection timeouts (Duration::MAX, u64::MAX s) on reachable, refused and unknown-scheme URLs, TLS establishment through ldaps:/// and ldap:/// + StartTLS (pre-opened stream) against a server whose trusted certificate names localhost; plus 300 seeded fuzzed scheme/separator/host/port/path/settings combinations for which only 'no panic, no hang' is required. Every case runs through LdapConnAsync::with_settings and LdapConn::with_settings; the oracle compares Ok/Err/panic and WHICH listener received a connection. distinct = distinct (URL, settings, API) cases",
+     rule="real loopback sockets: TCP listeners on 127.0.0.1/[::1] ports 389 and 636 (the sandbox runs as root), ephemeral ports, a listener that reads and never answers, a port with no listener, and Unix socket listeners at generated paths (plain; with space, '%', non-ASCII and ':' needing percent-encoding). An enumerated table of (URL, StartTLS, timeout, pre-opened TCP/Unix/Invalid stream) cases with the expected outcome derived from the property: explicit host/port (incl. explicit ports equal to the other scheme's default: ldaps://h:389, ldap://h:636), default ports 389/636, missing or empty host = localhost (ldap:///, ldap://, ldap:), IPv6 literal, ldapi percent-decoding, empty and port-bearing ldapi paths, unknown schemes (also with StartTLS enabled and without a timeout), ldaps with and without the StartTLS flag against a listener that records the first byte it receives (must be a TLS handshake record), unparsable URLs, refused port, pre-opened stream used iff its type matches the scheme (and then no new connection is made; an Invalid or TCP-typed stream with an ldapi URL naming a LIVE socket must fail, not fall back to connecting by path), connection timeout bounding StartTLS / TLS handshake against a silent server, effectively infinite connection timeouts (Duration::MAX, u64::MAX s) on reachable, refused and unknown-scheme URLs, TLS establishment through ldaps:/// and ldap:/// + StartTLS (pre-opened stream) against a server whose trusted certificate names localhost; plus 300 seeded fuzzed scheme/separator/host/port/path/settings combinations for which only 'no panic, no hang' is required. Every case runs through LdapConnAsync::with_settings and LdapConn::with_settings; the oracle compares Ok/Err/panic and WHICH listener received a connection. distinct = distinct (URL, settings, API) cases",
      claim="held on the enumerated matrix and the fuzzed combinations of this run; real time is used only for hang detection: a setup call still pending after 8 s is retried once alone with a 40 s guard and only a call pending both times is a hang; a call that returns late is inconclusive, a port that cannot be bound makes its cases inconclusive",
      design="3/C18", technique="listener-attribution monitor on real loopback/Unix sockets over an enumerated URL x settings matrix plus URL fuzzing with panic capture",
      note="needs to bind 127.0.0.1:389/636 (root); runs are serialised with a lock file; scratch sockets live under /tmp for the duration of the run only")
@@ -248,7 +248,7 @@ prop("C18", timeout_quick=1500,
 
 prop("C14",
      title="The synchronous API is observationally identical to the asynchronous one",
-     rule="a generated script of 2-11 steps over the whole LdapConn/EntryStream surface (simple and SASL EXTERNAL bind, search, streaming_search and streaming_search_with [EntriesOnly, PagedResults, both] read to the end or finished after k next() calls, add, compare, delete, modify, modifydn, extended, abandon, unbind, last_id, is_closed, abandon(last_id()), abandon(0), searches with an unparsable filter while modifiers are pending, with_controls / with_timeout / with_search_options before any of them) is executed twice against the same deterministic scripted server (behaviour chosen by the request itself: success, error codes, entries+references with controls, paging, silence with a 60 ms client timeout, 25 entries trickling 20 ms apart against a 350 ms per-item timeout, disconnect) over a Unix socket pair handed in through StdStream::Unix: once through LdapConn, once through LdapConnAsync/Ldap. A difference in a script with a trickling search is only believed if a second run of the same script shows a difference too (otherwise inconclusive). Oracle: the two decoded request sequences are equal (SET OF as multisets, raw bytes equal for every request without a SET OF), and the two sequences of results / errors (by class) / stream items / stream end states / last_id / is_closed values are equal. distinct = distinct scripts",
+     rule="a generated script of 2-11 steps over the whole LdapConn/EntryStream surface (simple and SASL EXTERNAL bind, search, streaming_search and streaming_search_with [EntriesOnly, PagedResults, both] read to the end or finished after k next() calls, add, compare, delete, modify, modifydn, extended, abandon, unbind, last_id, is_closed, abandon(last_id()), abandon(0), searches with an unparsable filter while modifiers are pending, with_controls / with_timeout / with_search_options before any of them, each optionally called twice (the last call wins)) is executed twice against the same deterministic scripted server (behaviour chosen by the request itself: success, error codes, entries+references with controls, paging, silence with a 60 ms or a zero client timeout, entries followed by a disconnect before the final result, 25 entries trickling 20 ms apart against a 350 ms per-item timeout, disconnect) over a Unix socket pair handed in through StdStream::Unix: once through LdapConn, once through LdapConnAsync/Ldap. A difference in a script with a trickling search is only believed if a second run of the same script shows a difference too (otherwise inconclusive). Oracle: the two decoded request sequences are equal (SET OF as multisets, raw bytes equal for every request without a SET OF), and the two sequences of results / errors (by class) / stream items / stream end states / last_id / is_closed values are equal. distinct = distinct scripts",
      claim="held on every generated script of this run (per-operation step counts and requests compared in the evidence)",
      design="3/C14", technique="differential monitor: one script, two API front-ends, same scripted server; wire transcript and return values compared",
      note="real sockets and real time (LdapConn owns a private runtime that cannot be paused): timeouts are compared by outcome class only")
@@ -256,7 +256,7 @@ prop("C14",
 
 prop("C17",
      title="Requested TLS is never silently downgraded",
-     rule="real loopback TCP with a harness server = raw cleartext tap + native-tls acceptor using certificates minted by certs/gen.sh (trusted for localhost/127.0.0.1 through SSL_CERT_FILE, wrong-name, untrusted CA, self-signed). Full matrix {ldap+StartTLS, ldaps, ldaps with the StartTLS flag} x {no_tls_verify on/off} x {host name, IP literal, no host in the URL with a pre-opened stream} x {6 orders of the settings builder calls} x {settings used directly / through clone()} x server behaviours {TLS with each certificate, StartTLS refused with sampled non-zero codes (always incl. referral code 10, which ExopResult::non_error() would accept), StartTLS refused but the server then performs a TLS handshake anyway, a well-formed envelope whose StartTLS result cannot be decoded (5 shapes) followed by a server-side handshake, garbage answer, well-formed non-extended answer, close, forged cleartext LDAP responses (for the IDs the client will use next, 1-64 copies) in the same segment as the StartTLS success, forged cleartext in a later segment}; after establishment two binds are issued which the server answers INSIDE TLS with rc 49. Oracle: every cleartext byte the server received is exactly one StartTLS ExtendedRequest (ldaps: first bytes are a TLS handshake record) and no LDAP message follows it in the clear; establishment returns Err when StartTLS is not success, the answer is garbage/closed, or the certificate must not verify (unless verification is disabled); a returned handle implies a completed handshake; no operation result carries the forged cleartext token or anything not sent inside TLS. thorough adds a valgrind memcheck pass over the OpenSSL FFI path. distinct = distinct matrix cells (x repetitions with different refusal codes / injection sizes)",
+     rule="real loopback TCP with a harness server = raw cleartext tap + native-tls acceptor using certificates minted by certs/gen.sh (trusted for localhost/127.0.0.1 through SSL_CERT_FILE, wrong-name, untrusted CA, self-signed). Full matrix {ldap+StartTLS, ldaps, ldaps with the StartTLS flag} x {no_tls_verify on/off} x {host name, IP literal, no host in the URL with a pre-opened stream} x {6 orders of the settings builder calls} x {settings used directly / through clone()} x {library-opened connection / pre-opened TCP stream with a host in the URL} x {plain URL / URL with DN, query and a bindname extension}; certificates also include one issued by the trusted CA for IP 127.0.0.1 only (must be refused for the name localhost however the connection was opened); refusal codes include multiples of 256; TLS-requesting URLs with a pre-opened Unix stream must fail without writing anything x server behaviours {TLS with each certificate, StartTLS refused with sampled non-zero codes (always incl. referral code 10, which ExopResult::non_error() would accept), StartTLS refused but the server then performs a TLS handshake anyway, a well-formed envelope whose StartTLS result cannot be decoded (5 shapes) followed by a server-side handshake, garbage answer, well-formed non-extended answer, close, forged cleartext LDAP responses (for the IDs the client will use next, 1-64 copies) in the same segment as the StartTLS success, forged cleartext in a later segment}; after establishment two binds are issued which the server answers INSIDE TLS with rc 49. Oracle: every cleartext byte the server received is exactly one StartTLS ExtendedRequest (ldaps: first bytes are a TLS handshake record) and no LDAP message follows it in the clear; establishment returns Err when StartTLS is not success, the answer is garbage/closed, or the certificate must not verify (unless verification is disabled); a returned handle implies a completed handshake; no operation result carries the forged cleartext token or anything not sent inside TLS. thorough adds a valgrind memcheck pass over the OpenSSL FFI path. distinct = distinct matrix cells (x repetitions with different refusal codes / injection sizes)",
      claim="held on every cell of the matrix in this run; establishment hangs bounded by the 6 s connection timeout are inconclusive, not violations",
      design="3/C17", technique="wire-tap monitor on real loopback TLS: cleartext byte oracle + establishment-outcome table + forged-response tokens; valgrind memcheck for the native TLS path",
      note="needs loopback TCP and the openssl CLI at setup time; trust is injected with SSL_CERT_FILE (honoured by the default native-tls connector); tls-rustls feature code is not built in this configuration and is out of reach")
